@@ -116,6 +116,9 @@ read_pbm_integer(j_compress_ptr cinfo, FILE *infile, unsigned int maxval)
     if (val > maxval)
       ERREXIT(cinfo, JERR_PPM_OUTOFRANGE);
   }
+  /* A single-digit value never enters the loop above. */
+  if (val > maxval)
+    ERREXIT(cinfo, JERR_PPM_OUTOFRANGE);
 
   return val;
 }
